@@ -56,3 +56,13 @@ func ChooseSplit(n int) (mode, cut int) {
 	}
 	return mode, cut
 }
+
+// RandReader stands in for crypto/rand.Reader: every byte is nondeterministic.
+type RandReader struct{}
+
+func (*RandReader) Read(p []byte) (int, error) {
+	for i := range p {
+		p[i] = U8("rand")
+	}
+	return len(p), nil
+}
